@@ -17,6 +17,16 @@ def run(ctx):
     else:
         sub = space + ("every history of length 0-4 over {Read, Write, Close, Closed, String, TryClose, LogClose} on any wrapper of the "
                        "configuration")
+    carriers = ("; carrier family: NewStreamConnection(w, u) with w a stream fake (Close succeeds / fails) and u every depth-1 composition of "
+                "the five connection constructors over a fake that succeeds / fails (u has its own handle in the history), bare (20 "
+                "configurations) and as the argument of each of the 11 one-argument constructors and as the reader / writer half of a pair "
+                "(260 configurations) x ")
+    if ctx.tier == "quick":
+        sub += carriers + ("every history of length 0-3 over the seven calls on any wrapper incl. those of the carrier; length 4 over the five "
+                           "calls of the statement for the 20 bare ones")
+    else:
+        sub += carriers + ("every history of length 0-4 over the seven calls on any wrapper incl. those of the carrier; plus the bare form over "
+                           "every carrier of depth exactly 2 (132 configurations) with every history of length 0-3")
     return driver.finish(
         ctx, "exploration",
         "sequential call histories on real wrapper compositions over counting fake resources, compared call by call with a reference model "
@@ -27,11 +37,23 @@ def run(ctx):
         "pair answers false while one half is certainly open and true when both halves are certainly closed. After each history every "
         "wrapper is asked Closed() once more. A panic in any call is a violation signed by its site. Exhaustive part: see "
         "exhaustive_subspace; random part: seeded configurations of depth <=4 (pairs branch, so up to 15 wrappers) with histories of "
-        "1-12 calls. A case is one (configuration, history); distinct_nontrivial only keys exhaustive histories of length <=2 and the "
+        "1-12 calls. Carriers: a StreamWrappedConnection also holds the connection it runs over (`underlying`); in the carrier "
+        "families that connection is itself a composition of this package's connection wrappers whose handles take part in the history "
+        "(written StreamConnection(w;over=u)), so it can be closed through its own handle before, between or after the calls on the "
+        "stream-wrapped connection and on the wrappers above it. The carrier is not a resource of the stream-wrapped connection: after "
+        "a close of the carrier alone, the stream-wrapped connection and everything above it must still answer Closed()==false and "
+        "their first Close must still reach the wrapped stream exactly once (stat:first_close_at_or_above_streamconnection_over_closed_carrier, "
+        "stat:closed_asserted_false_over_closed_carrier count how often these situations were really compared); the carrier's own fakes "
+        "obey rule (1) with respect to the carrier's wrappers; the carrier's Closed() is not asserted once the stream-wrapped connection "
+        "or a wrapper above it has been closed (closing the carrier along with the stream is allowed, not required). Violations seen in "
+        "that situation carry the suffix :over-closed-carrier. Besides the exhaustive carrier family (see exhaustive_subspace) there "
+        "are seeded random configurations of depth <=4 in which at least one StreamConnection runs over a wrapper composition of depth "
+        "1-2 (carrier_random_*). A case is one (configuration, history); distinct_nontrivial only keys exhaustive histories of length <=2 and the "
         "random ones (the longer exhaustive histories are counted in stat:exhaustive_histories_* and in evaluations).",
         ["sequential histories only: the property quantifies over call sequences, not schedules",
-         "the resource of a StreamWrappedConnection is its `wrapped` stream; its `underlying` net.Conn (addresses/deadlines only) is a separate "
-         "fake that is observed but not part of the oracle",
+         "the resource of a StreamWrappedConnection is its `wrapped` stream; its `underlying` net.Conn (addresses/deadlines only) is not owned: "
+         "outside the carrier families it is a separate plain fake that is observed only; in the carrier families it is a wrapper composition "
+         "with its own handle, standing on fakes of its own (never the same fake as the wrapped stream's)",
          "a pair's two halves stand on two different fakes (tree-shaped compositions; no resource shared by two branches)",
          "the result of the FIRST Close of a wrapper is not asserted (the statement only fixes the repeats)"],
         extra_cov={"exhaustive": False, "exhaustive_subspace": sub},
